@@ -358,6 +358,23 @@ def gen_history(rng, nops=None):
             w.op_charge()
         elif k < 0.30:
             w.op_state()
+        elif k < 0.38:
+            # a running projector moved straight from one target to another (no detour over "no target")
+            last = {}
+            for l in w.lines:
+                t = l.split()
+                if t[0] == 'target':
+                    last[int(t[1])] = t[2]
+            ships = [j for j, c in w.items.items() if c == 'ship' and w.where.get(j) is not None]
+            cand = [(i, j) for i, tj in last.items() if tj != '-' and i in w.items
+                    for j in ships if str(j) != tj]
+            if cand:
+                i, j = rng.choice(cand)
+                if rng.random() < 0.6:
+                    w.emit('state %d 3' % i)
+                w.emit('target %d %d' % (i, j))
+            else:
+                w.op_target()
         else:
             w.step(nsrc)
         for l in w.lines[n0:]:
